@@ -1139,3 +1139,32 @@ package decimal
 //@   ensures[digits,C14] x.form == finite && x.exp >= 1 && x.prec > x.exp ==> tz(x.mant, 19*len(x.mant) - gmp) && (result <==> gmp <= x.exp)
 //@   hint[after:MinPrec#1] bind(gmp, result)
 //@   tags safety C04,C14
+
+// ---------------------------------------------------------------------------
+// SetInt (C09, C08, C14 in part): proved modulo the assumed contracts of the math/big
+// accessors and of setNat (radix conversion; the float64 size estimate is part of that
+// assumption: the destination is long enough, so a non-zero x gives a non-empty result).
+
+//@ extern (*math/big.Int).BitLen (x)
+//@   ensures[range] 0 <= result && result <= 4294967295 && result == uf_bitlen(x)
+//@ extern (*math/big.Int).Sign (x)
+//@   ensures[range] 0 - 1 <= result && result <= 1
+//@ extern (*math/big.Int).Bits (x)
+//@   ensures[range] len(result) <= 40000000 && (uf_bitlen(x) != 0 ==> len(result) >= 1)
+//@ extern math.Ceil (x)
+
+//@ func (z dec) setNat(x []big.Word) dec
+//@   modifies mem(z)
+//@   ensures[where] result.arr == z.arr && result.off == z.off && cap(result) == cap(z)
+//@   ensures[shape] len(x) >= 1 ==> 1 <= len(result) && len(result) <= len(z) && len(result) <= 2*len(x) + 1 && wordsok(result) && natnorm(result)
+//@   status assumed radix conversion through divWVW; the caller's float64 size estimate is part of the assumption
+
+//@ func (z *Decimal) SetInt(x *big.Int) *Decimal
+//@   requires[wf] z != nil && x != nil && z.mode <= 5
+//@   modifies z.prec, z.acc, z.form, z.neg, z.exp, z.mant, memcap(z.mant)
+//@   ensures[result] result == z
+//@   ensures[sticky,C09] old(z.prec) != 0 ==> z.prec == old(z.prec)
+//@   ensures[prec0,C09,C14] old(z.prec) == 0 ==> z.prec >= DefaultDecimalPrec
+//@   ensures[mode,C09] z.mode == old(z.mode)
+//@   ensures[valid,C08] valid(z)
+//@   tags safety C04,C14
